@@ -11,7 +11,7 @@ from .procs import fork_run
 
 PROP = "C12"
 USES_COLD = True
-IO_KINDS = ["ENOENT", "EACCES", "EIO", "EMFILE", "EISDIR", "tear_line", "tear_byte", "flip"]
+IO_KINDS = ["ENOENT", "EACCES", "EIO", "EMFILE", "EISDIR", "tear_line", "tear_byte", "flip", "short", "short"]
 API_OPS = ["dumps", "call", "digraph", "attrs", "iter", "deepcopy", "match"]
 MUTS = ["op_append", "op_del", "op_replace", "op_rename", "arg_set", "arg_append", "kwarg_set",
         "modes_edit", "var_array_write", "var_set", "option_add", "type_option_add", "modes_add",
@@ -30,8 +30,8 @@ def runs_for(tier):
 def _io_fault(rng, nlines_hint=12):
     k = rng.choice(IO_KINDS)
     d = {"kind": "io", "nth": rng.choice([1, 1, 2, 2, 3])}
-    if k in ("tear_line", "tear_byte", "flip"):
-        d["what"] = "flip" if k == "flip" else "tear"
+    if k in ("tear_line", "tear_byte", "flip", "short"):
+        d["what"] = {"flip": "flip", "short": "short"}.get(k, "tear")
         d["line"] = rng.randint(0, nlines_hint)
         d["col"] = 0 if k == "tear_line" else rng.randint(0, 30)
     else:
@@ -46,6 +46,11 @@ def gen_plan(rng):
     cfg["env_rate"] = rng.choice([0.0, 0.1, 0.3])
     cfg["api_rate"] = rng.choice([0.0, 0.2, 0.5])
     cfg["nloads"] = rng.choice([2, 2, 3, 3, 4, 5, 6, 8, 12])
+    cfg["hold_exc"] = rng.choice([0.0, 0.0, 0.5, 1.0])        # the caller keeps failed loads' exceptions
+    # how eagerly the cycle collector runs (when it runs decides where, inside a later load,
+    # garbage left by an earlier one is finalised)
+    cfg["gc_threshold"] = rng.choice([None, None, 1500, 700, 400, 300, 200, 150, 100, 60, 40])
+    cfg["non_ascii"] = rng.random() < 0.25                    # bytes >= 0x80 in included files
     steps = []
     feats = cfg["features"]
     libs = []   # {"name","path","modes","params"}
@@ -65,6 +70,15 @@ def gen_plan(rng):
             nested["inc"] = rng.choice([posixpath.relpath(n0["path"], posixpath.dirname(path) or "."),
                                         "<ROOT>/" + n0["path"]])
         text, info = G.gen_lib(rng, cfg, name, nested=nested)
+        if cfg.get("non_ascii") and rng.random() < 0.6:
+            # written byte for byte (latin-1): either a lone 0xE9 (not valid UTF-8) in a comment
+            # or the two bytes of a UTF-8 'e acute' inside a string argument
+            lines = text.rstrip("\n").split("\n")
+            if rng.random() < 0.5:
+                lines.insert(rng.randint(3, len(lines)), "# caf\u00e9")
+            else:
+                lines.append('Annotate("d\u00c3\u00a9tection") | %d' % info["mode_list"][0])
+            text = "\n".join(lines) + "\n"
         if broken:
             lines = text.rstrip("\n").split("\n")
             lines.append(rng.choice(["Sgate(undefd) | 0", "Vac | 0.5", "Sgate(1, | 0", "int q1 = 1",
@@ -177,6 +191,8 @@ def gen_plan(rng):
             st["fault"] = {"kind": "intr", "exc": rng.choice(["MemoryError", "KeyboardInterrupt"]),
                            "frac": rng.random()}
             faulted = True
+        if rng.random() < cfg["hold_exc"]:
+            st["hold_exc"] = True
         steps.append(st)
         loads_done.append(st["out"])
         for n in script.get("defs", []):
@@ -211,7 +227,8 @@ def gen_plan(rng):
     steps.append({"op": "loads", "out": "s1", "script": {"head": list(SENTINEL["head"]),
                                                          "items": [list(i) for i in SENTINEL["items"]]},
                   "kind": "sentinel-fixed"})
-    return {"prop": PROP, "steps": steps, "cfg": cfg}
+    return {"prop": PROP, "steps": steps, "cfg": cfg, "gc_threshold": cfg["gc_threshold"],
+            "gc_in_loads_only": bool(cfg["hold_exc"])}
 
 
 def prepare(plan, ctx):
@@ -226,7 +243,8 @@ def prepare(plan, ctx):
         dry[i]["fault"] = {"kind": "count"}
     # drop later interruptions from the dry run prefix so that counts are for the
     # fault-free execution of each interrupted load after the same history
-    evs = fork_run(child.run_plan, dry, ctx["root"], ctx["scratch"], observe="none")
+    evs = fork_run(child.run_plan, dry, ctx["root"], ctx["scratch"], observe="none",
+                   gc_threshold=plan.get("gc_threshold"), gc_in_loads_only=plan.get("gc_in_loads_only"))
     by_i = {e["i"]: e for e in evs}
     for i in need:
         n = by_i.get(i, {}).get("lines") or 1
@@ -248,7 +266,8 @@ def run(plan, ctx):
     def bump(k, n=1):
         stats[k] = stats.get(k, 0) + n
 
-    H = fork_run(child.run_plan, steps, ctx["root"], ctx["scratch"], mode="history")
+    H = fork_run(child.run_plan, steps, ctx["root"], ctx["scratch"], mode="history",
+                 gc_threshold=plan.get("gc_threshold"), gc_in_loads_only=plan.get("gc_in_loads_only"))
     viol = []
     log = [["H", D.sha(H)]]
     prev_objs = {}
@@ -336,7 +355,8 @@ def run(plan, ctx):
         if plan.get("cold") and ctx.get("cold") is not None:
             prun = ctx["cold"].run
         bump("pristine_cold" if prun is not fork_run else "pristine_warm")
-        P = prun(child.run_plan, steps, ctx["root"], ctx["scratch"], mode="pristine", only=i)
+        P = prun(child.run_plan, steps, ctx["root"], ctx["scratch"], mode="pristine", only=i,
+                 gc_threshold=plan.get("gc_threshold"), gc_in_loads_only=plan.get("gc_in_loads_only"))
         pev = P[-1]
         log.append(["P", i, D.sha(pev)])
         bump("compared_loads")
